@@ -1,8 +1,9 @@
 /-
 Props.C01 — "Every reported execution path is a real EVM behaviour" — for the core machine (Model.Sevm, stage 1 of
 DESIGN §"Shared by C01, C02, C09, C10": stack, word instructions, PUSH/DUP/SWAP, PC, JUMP/JUMPI, JUMPDEST, calldata and
-transaction-environment reads, STOP/INVALID, RETURN/REVERT of zero bytes; every other opcode ends the path as *stuck*,
-which is an error report, never an outcome).
+transaction-environment reads, memory (MLOAD/MSTORE/MSTORE8 at concrete offsets — a flat array of byte terms, which
+halmos' ByteVec refines: Props.C07), STOP/INVALID, RETURN/REVERT with data; every other opcode ends the path as
+*stuck*, which is an error report, never an outcome).
 
 All theorems hold for EVERY program (`code : List Nat`, any length), EVERY fuel / number of steps, EVERY engine
 configuration (`--loop`, `--depth`), EVERY symbolic transaction environment `env`, EVERY sound simplifier `s`
@@ -45,25 +46,30 @@ theorem jumpdest_byte {code : List Nat} {d : Nat} (h : (Evm.validJumpdests code)
     * every untagged end state reporting the EVM outcome `h` has `Evm.step p w f = .halt w h`. -/
 theorem step_sound {I : Interp} {env : Env} {code : List Nat} {p : Evm.Params} {w : Evm.World} {s : Simp}
     {o : Oracle} {cfg : Cfg} {st : SState} {f : Evm.Frame} (hs : SimpSound s) (hI : I.Std)
-    (hR : R I env code p st f) (hsat : Sat I st.path) (hl : f.stack.length ≤ 1024) :
+    (hR : R I env code p st f) (hsat : Sat I st.path) (hl : f.stack.length ≤ 1024)
+    (hmem : cfg.maxMem + 32 ≤ p.memLimit) :
     (∀ st' ∈ (step s o cfg env code st).next, Sat I st'.path →
         ∃ f', CReach p w f f' ∧ R I env code p st' f') ∧
     (∀ e ∈ (step s o cfg env code st).ends, e.tag = .normal → ∀ h, e.out = .halt h →
-        Evm.step p w f = .halt w h) :=
-  Lemmas.Sevm.step_sound hs hI hR hsat hl
+        Evm.step p w f = .halt w (haltWith h (e.data.map (·.eval I)))) :=
+  Lemmas.Sevm.step_sound hs hI hR hsat hl hmem
 
 /-! ### the property -/
 
-/-- **C01.sound.** Every untagged end state `e` of `run` that reports an EVM outcome `h`, and every valuation `I`
-    satisfying its path conditions: the concrete machine, started in any frame `f0` related to the initial state,
-    reaches a frame at which `Evm.step` halts with exactly `h` and the world untouched — or its stack overflows. -/
+/-- **C01.sound.** Every untagged end state `e` of `run` that reports an EVM outcome of kind `h` (with return / revert
+    data `e.data`, a list of byte terms), and every valuation `I` satisfying its path conditions: the concrete machine,
+    started in any frame `f0` related to the initial state, reaches a frame at which `Evm.step` halts with exactly that
+    outcome — same kind, and the returned bytes are the values of `e.data` under `I` — and the world untouched; or its
+    stack overflows. `hmem`: the reference's memory limit (a modelling parameter on both sides) is at least as
+    permissive as halmos' `MAX_MEMORY_SIZE` for a 32-byte access; end states raised by halmos' limit checks are tagged. -/
 theorem sound {s : Simp} (hs : SimpSound s) (o : Oracle) (cfg : Cfg) (env : Env) (code : List Nat) (fuel : Nat)
-    (p : Evm.Params) (w : Evm.World) (e : EndState) (he : e ∈ (run s o cfg env code fuel).ends)
+    (p : Evm.Params) (w : Evm.World) (hmem : cfg.maxMem + 32 ≤ p.memLimit) (e : EndState)
+    (he : e ∈ (run s o cfg env code fuel).ends)
     (htag : e.tag = .normal) (h : Evm.Halt) (hout : e.out = .halt h) (I : Interp) (hI : I.Std) (f0 : Evm.Frame)
     (hR0 : R I env code p initState f0) (hsat : Sat I e.st.path) :
-    (∃ f, CReach p w f0 f ∧ Evm.step p w f = .halt w h) ∨
+    (∃ f, CReach p w f0 f ∧ Evm.step p w f = .halt w (haltWith h (e.data.map (·.eval I)))) ∨
     (∃ f, CReach p w f0 f ∧ f.stack.length > 1024) := by
-  have hgood := explore_sound (o := o) (cfg := cfg) (env := env) (code := code) (p := p) (w := w) hs fuel 0
+  have hgood := explore_sound (o := o) (cfg := cfg) (env := env) (code := code) (p := p) (w := w) hs hmem fuel 0
     [initState] {} (by
       intro st hm
       rw [List.mem_singleton] at hm
@@ -74,16 +80,18 @@ theorem sound {s : Simp} (hs : SimpSound s) (o : Oracle) (cfg : Cfg) (env : Env)
 /-- **C01.sound, as a terminating run.** The reported outcome is the result of `Evm.exec` on the whole program
     (for some amount of fuel — the statement bounds nothing), unless the concrete run dies of stack overflow. -/
 theorem sound_exec {s : Simp} (hs : SimpSound s) (o : Oracle) (cfg : Cfg) (env : Env) (code : List Nat) (fuel : Nat)
-    (p : Evm.Params) (w : Evm.World) (e : EndState) (he : e ∈ (run s o cfg env code fuel).ends)
+    (p : Evm.Params) (w : Evm.World) (hmem : cfg.maxMem + 32 ≤ p.memLimit) (e : EndState)
+    (he : e ∈ (run s o cfg env code fuel).ends)
     (htag : e.tag = .normal) (h : Evm.Halt) (hout : e.out = .halt h) (I : Interp) (hI : I.Std) (f0 : Evm.Frame)
     (hR0 : R I env code p initState f0) (hsat : Sat I e.st.path) :
-    (∃ n, Evm.exec p n w f0 = some (w, h)) ∨ (∃ n, Evm.exec p n w f0 = some (w, .stackOverflow)) := by
-  rcases sound hs o cfg env code fuel p w e he htag h hout I hI f0 hR0 hsat with ⟨f, hr, hstep⟩ | ⟨f, hr, hov⟩
+    (∃ n, Evm.exec p n w f0 = some (w, haltWith h (e.data.map (·.eval I)))) ∨
+    (∃ n, Evm.exec p n w f0 = some (w, .stackOverflow)) := by
+  rcases sound hs o cfg env code fuel p w hmem e he htag h hout I hI f0 hR0 hsat with ⟨f, hr, hstep⟩ | ⟨f, hr, hov⟩
   · exact Or.inl (exec_of_reach hr hstep)
   · exact Or.inr (exec_of_reach hr (evm_overflow hov))
 
 /-- the initial state of `run` -/
-example : initState = ⟨0, [], [], [], []⟩ := rfl
+example : initState = ⟨0, [], [], [], [], []⟩ := rfl
 
 /-! ### non-vacuity: a branching program, a concrete oracle, an instance of `R` -/
 
@@ -108,7 +116,10 @@ def exI : Interp := Interp.std (fun x _ => if x = "x" then 42 else if x = "msg_s
 
 theorem exI_std : exI.Std := Interp.std_isStd _ _ _ _
 
-def exP : Evm.Params := { origin := 0 }
+/-- the reference's memory limit is set just above halmos' `MAX_MEMORY_SIZE` (hypothesis `hmem`) -/
+def exP : Evm.Params := { origin := 0, memLimit := 2 ^ 20 + 32 }
+
+theorem exMem : ({} : Cfg).maxMem + 32 ≤ exP.memLimit := by decide
 def exW : Evm.World := { code := [], storage := [], transient := [], balance := [] }
 def exF0 : Evm.Frame := { this := 0x1000, caller := 0xabc, value := 0, calldata := exCalldata, code := exCode }
 
@@ -127,7 +138,7 @@ example : exRes.ends.map (fun e => (e.st.pc, e.out, e.tag, e.st.path)) =
 /-- the simulation relation holds between the initial symbolic state and the concrete initial frame -/
 theorem exR : R exI exEnv exCode exP initState exF0 := by
   refine ⟨rfl, rfl, StackRel.nil, ⟨?_, ?_, ?_, ?_, ?_, rfl⟩,
-    ⟨fun _ h => absurd h List.not_mem_nil, fun _ _ h => absurd h List.not_mem_nil⟩⟩
+    ⟨fun _ h => absurd h List.not_mem_nil, fun _ _ h => absurd h List.not_mem_nil⟩, MemRel.nil _⟩
   · exact ⟨(by decide : 0 < 160), (by decide : 160 ≤ 256), by decide +kernel⟩
   · exact ⟨(by decide : 0 < 160), (by decide : 160 ≤ 256), by decide +kernel⟩
   · exact ⟨(by decide : 0 < 256), (by decide : 256 ≤ 256), by decide +kernel⟩
@@ -154,13 +165,46 @@ theorem ex_end : ∃ e ∈ exRes.ends, e.tag = .normal ∧ e.out = .halt .invali
 example : (∃ n, Evm.exec exP n exW exF0 = some (exW, .invalidOpcode)) ∨
     (∃ n, Evm.exec exP n exW exF0 = some (exW, .stackOverflow)) := by
   obtain ⟨e, he, htag, hout, hp⟩ := ex_end
-  refine sound_exec foldSimp_sound exOracle {} exEnv exCode 100 exP exW e he htag .invalidOpcode hout exI exI_std
-    exF0 exR ?_
+  refine sound_exec foldSimp_sound exOracle {} exEnv exCode 100 exP exW exMem e he htag .invalidOpcode hout exI
+    exI_std exF0 exR ?_
   rw [hp]
   exact sat_singleton.2 (by decide +kernel)
 
 /-- and the reference interpreter indeed says so (it is the first disjunct that holds) -/
 example : (Evm.exec exP 10 exW exF0).map (·.2) = some .invalidOpcode := by decide +kernel
+
+/-! memory and return data -/
+
+/-- `PUSH1 4; CALLDATALOAD; PUSH1 0; MSTORE; PUSH1 0xAB; PUSH1 32; MSTORE8; PUSH1 33; PUSH1 0; RETURN`:
+    returns the 32 bytes of the symbolic argument followed by the byte 0xAB -/
+def retCode : List Nat := [0x60, 4, 0x35, 0x60, 0, 0x52, 0x60, 0xab, 0x60, 32, 0x53, 0x60, 33, 0x60, 0, 0xf3]
+
+/-- the model's single end state: success, carrying 33 byte terms — `Extract(255-8i, 248-8i, x)` and the literal 0xAB -/
+theorem ret_end : ∃ e ∈ (run foldSimp exOracle {} exEnv retCode 100).ends, e.tag = .normal ∧
+    e.out = .halt (.success []) ∧ e.st.path = [] ∧
+    e.data = ((List.range 32).map fun i => T.extract (8 * (31 - i) + 7) (8 * (31 - i)) (.var "x" 256)) ++ [.lit 8 0xab] := by
+  decide +kernel
+
+/-- `sound_exec` on it, for the valuation `x ↦ 42`: the reference EVM returns 31 zero bytes, 42, 0xAB -/
+example : (∃ n, Evm.exec exP n exW { exF0 with code := retCode } =
+      some (exW, .success (List.replicate 31 0 ++ [42, 0xab]))) ∨
+    (∃ n, Evm.exec exP n exW { exF0 with code := retCode } = some (exW, .stackOverflow)) := by
+  obtain ⟨e, he, htag, hout, hp, hd⟩ := ret_end
+  have hR : R exI exEnv retCode exP initState { exF0 with code := retCode } :=
+    ⟨rfl, rfl, StackRel.nil, exR.env.congr rfl rfl rfl rfl, exR.subst, MemRel.nil _⟩
+  have := sound_exec foldSimp_sound exOracle {} exEnv retCode 100 exP exW exMem e he htag (.success []) hout exI
+    exI_std _ hR (by rw [hp]; exact Sat.nil _)
+  have hv : haltWith (.success []) (e.data.map (·.eval exI)) = .success (List.replicate 31 0 ++ [42, 0xab]) := by
+    rw [hd]; decide +kernel
+  rw [hv] at this
+  exact this
+
+example : (Evm.exec exP 20 exW { exF0 with code := retCode }).map (·.2) =
+    some (.success (List.replicate 31 0 ++ [42, 0xab])) := by decide +kernel
+
+/-- a write beyond `MAX_MEMORY_SIZE` ends the path with the tagged OutOfGas (`PUSH1 0; PUSH3 0x100001; MSTORE`) -/
+example : (run foldSimp exOracle {} exEnv [0x60, 0, 0x62, 0x10, 0x00, 0x01, 0x52, 0x00] 100).ends.map
+    (fun e => (e.out, e.tag)) = [(.halt .outOfGas, .memLimit)] := by decide +kernel
 
 /-- the concretization map at work (`Path.concretization.substitution`): after the branch `x = 42` a second
     `CALLDATALOAD 4` pushes the literal 42, so the second `EQ`/`JUMPI` is decided concretely — two end states, not three:
